@@ -7,7 +7,7 @@ CONSTANTS
   KSz = 5
   NKeys = 4
   BigKeys = {4}
-  Wraps = {0, 1}
+  Wraps = {0, 1, 2}
   Kinds = {"A", "M", "C"}
   Types = {43, 44, 45, 107, 108}
   Crashes = TRUE
